@@ -69,7 +69,8 @@ PLAN = {
     "C13": [("Build", ["Inv_C13"], {})],
     "C05": [("Incr", [], {}), ("Incr", [], {"MaxOps": 1, "Wide": "TRUE"})],
     "C09": [("Derive", ["Inv_C09"], {"Ops": '{"chain", "sub"}'}),
-            ("Derive", ["Inv_C09"], {"Ops": '{"chain", "sub"}', "MaxBase": 1, "BaseMode": '"all"'})],
+            ("Derive", ["Inv_C09"], {"Ops": '{"chain", "sub"}', "MaxBase": 1, "BaseMode": '"all"'}),
+            ("Derive", ["Inv_C09"], {"Ops": '{"chain"}', "MaxBase": 2, "BaseMode": '"bridge"'})],     # a later record bridges two earlier ones
     "C12": [("Derive", ["Inv_C12"], {"Ops": '{"remap_uri", "rewire"}', "MaxBase": 1, "BaseMode": '"all"'})],
     "C10": [("Derive", [], {"Ops": '{"chain", "sub"}', "MaxFollow": 1}),
             ("Derive", [], {"Ops": '{"chain", "sub", "remap_uri", "rewire"}', "MaxFollow": 1, "MaxBase": 1, "BaseMode": '"all"'}),
@@ -218,6 +219,8 @@ CONCRETE = {
     "tokens": {0: "?", 1: "http://purl.obolibrary.org/obo/", 2: "HTTP://PURL.OBOLIBRARY.ORG/OBO/", 3: "GO_", 4: "~", 5: "/",
                6: "Straße", 7: "s", 8: "CHEBI_", 9: "zz", 58: ":", 64: "@", 100: "https://w3id.org/"},
     "case": {0: "?", 1: "ns", 2: "NS", 3: "Ns", 4: ":", 5: "/", 6: "ß", 7: "s", 8: "nS", 9: "d", 58: ":", 64: "@", 100: "u/"},
+    # 'A' folds to 'a' with a CHANGE OF LENGTH: "ß".casefold() == "ss"
+    "sharp": {0: "?", 1: "ss", 2: "ß", 3: "t", 4: ":", 5: "/", 6: "ẞ", 7: "s", 8: "c", 9: "d", 58: ":", 64: "@", 100: "u/"},
     "dcolon": {0: "?", 1: "x", 2: "X", 3: "y", 4: "::", 5: "/", 6: "ß", 7: "s", 8: "c", 9: "d", 58: ":", 64: "@", 100: "u_"},
 }
 # models whose DefaultDelim is 58 must keep ":" as the default delimiter; models using 4 as the
